@@ -10,7 +10,7 @@ import (
 )
 
 var voteVariants = []string{"flip", "wrongkey", "crosskind", "otherround", "othertarget", "zerosig", "emptysig", "idrange", "idN", "idmax", "idlen0", "idlen1", "idlen3", "badpkh", "oldset", "mix", "dupid", "emptymap"}
-var phVariants = []string{"forgedNext", "forgedCur", "forgedNextPK", "forgedCurPK", "badhash", "nonval", "badsig", "nokey", "badpcp", "shortpcp", "foreignpcp", "duppcp", "pcpnil3", "pcponlynil3", "emptypcp", "pcpidN", "pcpidlen1"}
+var phVariants = []string{"forgedNext", "forgedCur", "forgedNextPK", "forgedCurPK", "badhash", "nonval", "badsig", "nokey", "badpcp", "shortpcp", "foreignpcp", "duppcp", "pcpnil3", "pcponlynil3", "emptypcp", "pcpidN", "pcpidlen1", "prevlinkB"}
 var replayVariants = []string{"ok", "lowpower", "byzonly", "nextround", "prevH", "nextH", "badhash", "badprev", "foreign", "blockB", "nosigs", "pvsigs"}
 
 // alphabet lists the environment events. "full" is used for single deviations, "core" where the space is squared or cubed.
@@ -69,12 +69,16 @@ func alphabet(level string) []string {
 		}
 	}
 	for _, v := range phVariants {
-		if level == "core" && !(v == "forgedNext" || v == "forgedNextPK" || v == "badsig" || v == "pcpnil3" || v == "pcponlynil3") {
+		if level == "core" && !(v == "forgedNext" || v == "forgedNextPK" || v == "badsig" || v == "pcpnil3" || v == "pcponlynil3" || v == "prevlinkB") {
 			continue
 		}
 		add("PH:A:" + v)
 		if level != "core" {
 			add("PH:A@0,1:" + v)
+		}
+		if v == "prevlinkB" || v == "pcpnil3" {
+			// ... arriving at a node that is one height behind (the proof first backfills the commit)
+			add("PH:A@1,0:" + v)
 		}
 	}
 	for _, v := range replayVariants {
